@@ -407,6 +407,9 @@ def reduce_src(v):
 
 def replay(payload):
     core.stage()
+    if payload.get("family") == "E11":
+        from . import e11_pyx
+        return e11_pyx.replay(payload, "refs", cflags=("-DCYTHON_REFNANNY=1",), refnanny=refnanny_so())
     name = payload["module"] if payload["module"].startswith("wit35") else "wit35_" + core.digest(payload["src"])[:8]
     rn = refnanny_so()
     so = build.build_ext(name, payload["src"], ".py", cflags=("-DCYTHON_REFNANNY=1",) + tuple(payload.get("cflags", ())))
@@ -474,9 +477,30 @@ def check(tier):
                       "stub": ["chaos objects: which special-method call fails is decided by the plan"]}
     rep.assumptions = ["runs whose special-method call order differs from CPython before the fault are not compared (evaluation order is C20's business), counted as order_divergences",
                        "allocation-failure injection is not used for alarms (CPython itself is not clean under it)",
-                       ".pyx typed-argument / cdef-class / memoryview sub-family of the design is not built"]
+                       "typed .pyx family (E11: cdef functions, cpdef, cdef classes, typed conversions) is swept with seeded single/multi fault plans, not the complete k-sweep; memoryview acquisition is not built"]
     budget = core.env_budget(70 if tier == "quick" else 900)
-    viol, mods, cfg = explore(rep, seed, tier, "base", budget=budget)
+    viol, mods, cfg = explore(rep, seed, tier, "base", budget=budget * 0.75)
+    # typed .pyx family (E11) under the same invariants (refnanny silent, live tracked objects back to baseline, no exception state
+    # left behind, no crash): cdef functions with every exception specification, cpdef, cdef classes, typed conversions that fail
+    from . import e11_pyx
+    rn = refnanny_so()
+    viol11, mods11, cfg11, _ = e11_pyx.explore(rep, PROP, seed, tier, "refs", "refs", cflags=("-DCYTHON_REFNANNY=1",), budget=budget * 0.25,
+                                               nmods=3 if tier == "quick" else 8, refnanny=rn)
+    modmap11 = {m["name"]: m for m in mods11}
+    seen11 = set()
+    for i, v in viol11:
+        if v["klass"] == "crash" and v.get("func") is None:
+            rec = e11_pyx.recover_crash(seed, i, cfg11, mods11, PROP, "refs")
+            if rec is None:
+                rep.harness_errors.append("E11 run %d crashed a worker but no single case reproduces it" % i)
+                continue
+            v["func"], v["arg"], v["plan"] = rec
+        elif v.get("func") is not None:
+            v.update(e11_pyx.minimise_plan(v, modmap11[v["module"]], "refs"))
+        if v["klass"] in seen11:
+            continue
+        seen11.add(v["klass"])
+        rep.violation("%s in typed .pyx workload (run %s): %s" % (v["klass"], i, json.dumps(v["detail"])[:300]), dict(v, seed=seed, run_index=i))
     core.replay_known(PROP, replay, rep)
     if mods:
         a = dict(core.run_forked(one_run, PROP, seed, range(6), cfg, jobs=2))
